@@ -48,6 +48,7 @@ func genCase(t *rapid.T) Case {
 		np = rapid.IntRange(0, 3).Draw(t, "nparams-with-bulk")
 		c.Bulk = rapid.SampledFrom([]int{32767, 32768, 40000, 65535}).Draw(t, "total-params") - np
 	}
+	c.Twice = rapid.IntRange(0, 3).Draw(t, "execute-twice") == 0
 	c.PShape = rapid.SampledFrom([]string{"none", "one", "each"}).Draw(t, "pshape")
 	common := int16(0)
 	if c.PShape == "one" {
